@@ -400,7 +400,11 @@ def run_dp(case):
                 inp = "hourly"
         if idx is None:
             od = pd.Timestamp(case["start_date"]).toordinal()
-            s = cz.local_midnight_utc(od, z, 0) or cz.local_midnight_utc(od, z, 1)
+            s = None
+            for k in range(72):          # first wall-clock hour that exists (a whole calendar day can be skipped: Pacific/Apia)
+                s = cz.local_midnight_utc(od + k // 24, z, k % 24)
+                if s is not None:
+                    break
             s0 = cz.to_minutes(s) + 60 * case["start_hour"]
             idx = pd.DatetimeIndex(pd.to_datetime([(s0 + 60 * k) * MIN for k in range(max(2, n * 24 - case["cut_end"]))],
                                                   utc=True)).tz_convert(z)
@@ -928,18 +932,19 @@ def detect_policy(run):
     count_rows = {json.dumps([[], []]): False, json.dumps([[[2, 2]], []]): True}.get(json.dumps(a.get("ok")))
     loc_by_mask = True if b.get("ok") == [[[2, 0]], []] else (False if b.get("raised") == "KeyError" else None)
     run.cov["behaviour_detected"] = {
-        "short/long days recognised by": {False: "count of non-null observed (as coded: D11)", True: "number of rows (repaired)",
+        "short/long days recognised by": {False: "count of non-null observed (round-1 code: D11)", True: "number of rows (D11 repaired)",
                                           None: "unrecognised"}[count_rows],
-        "rows of a date looked up by": {False: "label df.loc[date] (as coded: D18)", True: "mask (repaired)", None: "unrecognised"}[loc_by_mask]}
+        "rows of a date looked up by": {False: "label df.loc[date] (D18)", True: "mask (D18 repaired)", None: "unrecognised"}[loc_by_mask]}
     if count_rows is None or loc_by_mask is None:
         run.corr_failures.append({"stream": "policy-probe", "case": {"probes": ["US/Pacific 2023-03-10 without observed",
                                                                                "America/Havana 2023-03-10"]},
                                   "impl": [a, b], "model": "no policy of Model/Dst.v explains the probes"})
     POLICY = "(policy_of %s %s)" % (coq_bool(bool(count_rows)), coq_bool(bool(loc_by_mask)))
     run.cov["theorem_path"] = (
-        "C06_hourly_predict_index_partial (guards: usage on every row, resolvable date labels, pattern_ok); the refutation "
-        "witnesses C06_hourly_refuted_* are replayed on the implementation" if not (count_rows and loc_by_mask) else
-        "C06_hourly_predict_index_repaired (guard: pattern_ok only)")
+        "C06_hourly_predict_index_repaired (guard: pattern_ok only)" if (count_rows and loc_by_mask) else
+        "C06_hourly_predict_index_partial at pol = %s (guards: %sresolvable date labels, pattern_ok); "
+        "C06_unresolvable_label_always_fails and the witnesses C06_hourly_refuted_* are replayed on the implementation"
+        % (("d11_repaired", "") if count_rows else ("as_coded", "usage on every row, ")))
 
 
 def zone_plan(run):
